@@ -90,7 +90,17 @@ inline int refResolvable(const Config& c, const Part& p, int* targetField) {
     size_t first = 0;
     while (first < m.fields.size() && m.fields[first].ignored()) first++;
     if (first >= m.fields.size()) return 0;
-    if (m.fields[first].numeric() != wantNumeric) return -1;  // "a first field of the required kind": open
+    if (m.fields[first].numeric() != wantNumeric) {
+      // the first field is of the other kind: "a first field of the required kind" is then the first one of that kind
+      // ("whatever the number and kinds of its fields").  With exactly one such field the statement fixes everything;
+      // with none or several it stays open (which of them is meant is the subject
+      // of the recorded finding about unnamed conditions)
+      int cnt = 0, idx = -1;
+      for (size_t i = 0; i < m.fields.size(); i++) if (!m.fields[i].ignored() && m.fields[i].numeric() == wantNumeric) { cnt++; if (idx < 0) idx = static_cast<int>(i); }
+      if (cnt != 1) return -1;
+      *targetField = idx;
+      return 1;
+    }
     *targetField = static_cast<int>(first);
     return 1;
   }
@@ -229,6 +239,17 @@ inline MsgDef makeScanMsg() {
   return m;
 }
 
+// is an unnamed condition of the given kind on a message of this layout fixed by the statement? (see refResolvable)
+inline bool unnamedFixed(const std::string& lay, bool wantNumeric) {
+  size_t first = 0;
+  while (first < lay.size() && (lay[first] == 'i' || lay[first] == 'j')) first++;
+  if (first >= lay.size()) return true;
+  auto numericChar = [](char ch) { return ch != 'S' && ch != 'i' && ch != 'j'; };
+  if (numericChar(lay[first]) == wantNumeric) return true;
+  int cnt = 0;
+  for (char ch : lay) if (ch != 'i' && ch != 'j' && numericChar(ch) == wantNumeric) cnt++;
+  return cnt == 1;
+}
 // field reference token: "n<i>" named field i, "u" unnamed, "x" a name no field has, "nomsg" message missing
 inline bool applyRef(Config* c, Part* p, const string& ref) {
   const MsgDef& m = c->msgs[static_cast<size_t>(p->msg)];
@@ -497,8 +518,7 @@ inline vector<string> enumerate(bool thorough) {
         refs = {"u"};
       } else {
         for (size_t i = 0; i < lay.size(); i++) { char b[8]; snprintf(b, sizeof(b), "n%zu", i); refs.push_back(b); }
-        bool firstNumeric = lay[0] != 'S';
-        if (firstNumeric == (s.kind == CK_NUM)) refs.push_back("u");
+        if (unnamedFixed(lay, s.kind == CK_NUM)) refs.push_back("u");
         refs.push_back("x");
       }
       for (const string& r : refs) out.push_back("fam=simple;lay=" + lay + ";shape=" + s.name + ";ref=" + r);
@@ -527,7 +547,7 @@ inline vector<string> enumerate(bool thorough) {
           refs = {"u"};
         } else {
           for (size_t i = 0; i < lay.size(); i++) if (lay[i] != 'i' && lay[i] != 'j') { char b[8]; snprintf(b, sizeof(b), "n%zu", i); refs.push_back(b); }
-          if ((lay[first] != 'S') == (s.kind == CK_NUM)) refs.push_back("u");
+          if (unnamedFixed(lay, s.kind == CK_NUM)) refs.push_back("u");
           refs.push_back("x");
         }
         for (const string& r : refs) out.push_back("fam=simple;lay=" + lay + ";part=" + f.part + ";shape=" + s.name + ";ref=" + r);
@@ -558,7 +578,7 @@ inline vector<string> enumerate(bool thorough) {
           refs = {"u"};
         } else {
           for (size_t i = 0; i < lay.size(); i++) if (lay[i] != 'i' && lay[i] != 'j') { char b[8]; snprintf(b, sizeof(b), "n%zu", i); refs.push_back(b); }
-          if ((lay[first] != 'S') == (s.kind == CK_NUM)) refs.push_back("u");
+          if (unnamedFixed(lay, s.kind == CK_NUM)) refs.push_back("u");
           refs.push_back("x");
         }
         for (const string& r : refs) out.push_back("fam=simple;lay=" + lay + ";zz=c;shape=" + s.name + ";ref=" + r);
